@@ -806,6 +806,7 @@ func runC12(c *Ctx) {
 	c12Stress(c, rounds)
 
 	runC12MaxJobs(c)
+	runC12Cluster(c)
 	runC12Local(c)
 
 }
